@@ -65,11 +65,13 @@ class TlcResult:
 
 def run_tlc(spec, cfg, *, workers=None, env=None, simulate=None, depth=None, seed=None,
             cont=False, deadlock=False, timeout=3600, coverage=False, extra=(), heap="6g",
-            dfs=False):
+            dfs=False, xss=None):
     """Run TLC on SPEC/spec.tla with SPEC/cfg; returns TlcResult. Raises MachineryFailure on
     timeout or when the JVM/TLC itself fails (parse error, OOM, ...)."""
     meta = workdir("tlc")
     cmd = ["java", "-XX:+UseParallelGC", "-Xmx" + heap]
+    if xss:
+        cmd.append("-Xss" + xss)
     if dfs:
         cmd.append("-Dtlc2.tool.queue.IStateQueue=StateDeque")
     cmd += ["-cp", TLA_CP, "tlc2.TLC", "-metadir", str(meta), "-noGenerateSpecTE",
@@ -240,7 +242,7 @@ class Check:
 # batch is accepted iff every id got exactly one verdict. Missing verdicts = machinery failure.
 # ----------------------------------------------------------------------------------------------
 
-def validate_batch(spec, cfg, events, *, idkey="tid", workers=None, timeout=3600, env=None, tag="V"):
+def validate_batch(spec, cfg, events, *, idkey="tid", workers=None, timeout=3600, env=None, tag="V", xss=None):
     """events: list of JSON-able dicts each with a unique integer idkey. Returns
     (TlcResult, {id: verdict_string})."""
     if not events:
@@ -254,7 +256,7 @@ def validate_batch(spec, cfg, events, *, idkey="tid", workers=None, timeout=3600
     if env:
         e.update(env)
     try:
-        res = run_tlc(spec, cfg, workers=workers, env=e, cont=True, timeout=timeout)
+        res = run_tlc(spec, cfg, workers=workers, env=e, cont=True, timeout=timeout, xss=xss)
     finally:
         if not os.environ.get("VERIF_KEEP"):
             shutil.rmtree(wd, ignore_errors=True)
